@@ -208,6 +208,39 @@ def check_node_construction(ctx, env, rule: str, consequence: str):
     ctx.analysed["node classes whose construction was checked"] = n
 
 
+def check_fields_hold_declared_shapes(ctx, env, rule: str, consequence: str):
+    """The image of the grammar's actions (which kinds of value each field of each node class can receive, computed as a
+    fixpoint over all productions) against the declared shape of the field: a node field receives a node, a list field a list
+    of nodes, a scalar field a scalar, and None only where the field is declared Optional. The declared *class* of the nodes is
+    not compared (the unchanged tree puts arbitrary expressions into `List.val: List[_Literal]`)."""
+    schema, kf = env.schema, env.kindflow
+    n = 0
+    for (kind, discr), fields in sorted(kf.kinds.table.items(), key=lambda kv: (kv[0][0], kv[0][1] or "")):
+        nc = schema.classes.get(kind)
+        if discr is not None or nc is None:
+            continue
+        for fname, fd in fields.items():
+            fi = nc.field(fname)
+            if fi is None or fi.shape == "other":
+                continue
+            n += 1
+            key = f"{kind}.{fname}"
+            where = f"{schema.module.rel}:{fi.lineno or nc.lineno}"
+            if fi.shape in ("node", "optional_node", "list_node"):
+                want = "list" if fi.shape == "list_node" else "node"
+                foreign = sorted(k for k in fd.kinds if k not in schema.classes and not (k == "NoneType" and fi.shape == "optional_node"))
+                ok = fd.shape == want and not foreign
+                what = (f"a {fd.shape} where `{fi.annotation}` is declared" if fd.shape != want else
+                        f"{', '.join('None' if 'none' in k.lower() else k for k in foreign)} among the {'elements' if want == 'list' else 'values'} of `{fi.annotation}`")
+                ctx.check(ok, rule, key, f"the parser's actions can put {what} into {kind}.{fname}: {consequence}" if not ok else
+                          f"{fd.shape} of {len(fd.kinds)} node kinds", where)
+            else:
+                ok = fd.shape == "scalar"
+                ctx.check(ok, rule, key, f"the parser's actions can put a {fd.shape} into the scalar field {kind}.{fname} (`{fi.annotation}`): {consequence}"
+                          if not ok else f"scalar {fd.pytype}", where)
+    ctx.floor("node fields filled by the parser", n, 30)
+
+
 MUTATORS = {"append", "extend", "insert", "add", "update", "setdefault", "pop", "popitem", "remove", "discard", "clear", "sort", "reverse", "appendleft"}
 
 
